@@ -1,7 +1,375 @@
-//! C11 — not built yet
-use crate::vcore::Tier;
+//! C11 — a playing tape presents each TAP block as the standard loader waveform.
+//!
+//! Component level: explicit-state search over EVERY partition of elapsed time into
+//! `process_clocks(s)` steps, s in 0..=16, on the real `Tap`, decomposed at the reload events of
+//! the state machine (where all paths provably converge — the convergence is re-checked on every
+//! exit transition, not assumed). RefTape's independent decoder judges the pulse sequence.
+//! System level (ROM loader in real time vs fast load) lives in `c10.rs::realtime_vs_fast`.
 
-pub fn run(_tier: Tier, _seed: u64, _replay: Option<String>) -> i32 {
-    eprintln!("MACHINERY: check C11 is not built yet");
-    2
+use crate::rig::{self, AssetData};
+use crate::tapemodel::*;
+use crate::vcore::{fnv, par_for, Ctx, Tier};
+use rustzx_core::verif::TapeImpl;
+use serde_json::json;
+use std::collections::{BTreeSet, HashSet, VecDeque};
+use std::sync::Mutex;
+
+pub const MAX_STEP: usize = 16;
+
+fn norm(t: &RTap) -> TapKey {
+    let mut k = tap_key(t);
+    k.st.delay = 0;
+    k
+}
+
+struct SegOut {
+    states: u64,
+    transitions: u64,
+    /// `since` values at a non-flipping exit (carried into the next segment)
+    exit_since: BTreeSet<u64>,
+    min_dur: u64,
+    max_dur: u64,
+}
+
+/// What RefTape expects for the pulse that ends at reload `k+1` (None: not an edge there)
+struct Expect {
+    kind: Option<PulseKind>,
+}
+
+fn pulse_bounds(kind: PulseKind) -> (u64, u64) {
+    match kind {
+        PulseKind::Silence => (PAUSE_MIN, PAUSE_MAX + PILOT + 2 * TOL),
+        k => (nominal(k), nominal(k) + TOL),
+    }
+}
+
+#[allow(clippy::too_many_arguments)]
+fn explore_segment(
+    ctx: &Ctx,
+    tape_name: &str,
+    init_tap: &RTap,
+    init_since: &[u64],
+    next_entry: Option<&RTap>,
+    expect: &Expect,
+    seg_index: usize,
+    blocks_json: &serde_json::Value,
+) -> SegOut {
+    let entry_norm = norm(init_tap);
+    let next_key = next_entry.map(tap_key);
+    let mut seen: HashSet<(usize, u64)> = HashSet::new();
+    let mut q: VecDeque<(RTap, u64)> = VecDeque::new();
+    for s in init_since {
+        if seen.insert((init_tap.verif_state().delay, *s)) {
+            q.push_back((init_tap.clone(), *s));
+        }
+    }
+    let mut out = SegOut {
+        states: seen.len() as u64,
+        transitions: 0,
+        exit_since: BTreeSet::new(),
+        min_dur: u64::MAX,
+        max_dur: 0,
+    };
+    let replay = |since: u64, delay: usize, s: usize| {
+        json!({"kind":"segment","tape":tape_name,"blocks":blocks_json,"segment":seg_index,"delay":delay,"since":since,"step":s})
+    };
+    while let Some((tap, since)) = q.pop_front() {
+        let st = tap.verif_state();
+        let bit0 = tap.current_bit();
+        for s in 0..=MAX_STEP {
+            let mut n = tap.clone();
+            out.transitions += 1;
+            if let Err(e) = n.process_clocks(s) {
+                ctx.violation(
+                    "C11:process_clocks-error",
+                    &format!("tape {}: process_clocks({}) returned {:?} in segment {}", tape_name, s, e, seg_index),
+                    replay(since, st.delay, s),
+                );
+                continue;
+            }
+            let dur = since + s as u64;
+            if st.delay == 0 {
+                // reload event: the call that runs the state machine
+                let flipped = n.current_bit() != bit0;
+                match &next_key {
+                    Some(nk) => {
+                        if tap_key(&n) != *nk {
+                            ctx.violation(
+                                "C11:partition-dependent-state",
+                                &format!(
+                                    "tape {}: after reload #{} the tape state depends on the step partition (since={}, step={}): {:?} vs pre-pass {:?}",
+                                    tape_name, seg_index + 1, since, s, tap_key(&n).st, nk.st
+                                ),
+                                replay(since, st.delay, s),
+                            );
+                        }
+                    }
+                    None => {}
+                }
+                if flipped {
+                    out.min_dur = out.min_dur.min(dur);
+                    out.max_dur = out.max_dur.max(dur);
+                    match expect.kind {
+                        Some(kind) => {
+                            let (lo, hi) = pulse_bounds(kind);
+                            if dur < lo {
+                                ctx.violation(
+                                    &format!("C11:pulse-too-short:{:?}", kind),
+                                    &format!("tape {}: {:?} pulse ending at reload #{} lasts {} T < nominal {} (last step {})", tape_name, kind, seg_index + 1, dur, lo, s),
+                                    replay(since, st.delay, s),
+                                );
+                            } else if dur > hi {
+                                ctx.violation(
+                                    &format!("C11:pulse-too-long:{:?}", kind),
+                                    &format!("tape {}: {:?} pulse ending at reload #{} lasts {} T > nominal+32 = {} (last step {})", tape_name, kind, seg_index + 1, dur, hi, s),
+                                    replay(since, st.delay, s),
+                                );
+                            }
+                        }
+                        None => {
+                            ctx.violation(
+                                "C11:edge-not-in-prepass",
+                                &format!("tape {}: an edge appears at reload #{} under some partition but not in the 16-step pre-pass", tape_name, seg_index + 1),
+                                replay(since, st.delay, s),
+                            );
+                        }
+                    }
+                } else {
+                    if expect.kind.is_some() {
+                        ctx.violation(
+                            "C11:edge-missing",
+                            &format!("tape {}: the edge at reload #{} is missing under some partition (since={}, step={})", tape_name, seg_index + 1, since, s),
+                            replay(since, st.delay, s),
+                        );
+                    }
+                    out.exit_since.insert(dur);
+                }
+            } else {
+                if n.current_bit() != bit0 {
+                    ctx.violation(
+                        "C11:edge-before-delay-elapsed",
+                        &format!("tape {}: EAR level changed while {} T of the pulse were still pending (segment {})", tape_name, st.delay, seg_index),
+                        replay(since, st.delay, s),
+                    );
+                    continue;
+                }
+                if norm(&n) != entry_norm {
+                    ctx.violation(
+                        "C11:state-changed-inside-pulse",
+                        &format!("tape {}: tape state other than the countdown changed inside a pulse (segment {}, delay {}, step {})", tape_name, seg_index, st.delay, s),
+                        replay(since, st.delay, s),
+                    );
+                    continue;
+                }
+                let d2 = n.verif_state().delay;
+                if seen.insert((d2, dur)) {
+                    out.states += 1;
+                    q.push_back((n, dur));
+                }
+            }
+        }
+    }
+    out
+}
+
+pub fn check_tape(ctx: &Ctx, name: &str, blocks: &[Vec<u8>]) {
+    let image = AssetData::Static(Box::leak(tap_image(blocks).into_boxed_slice()));
+    let blocks_json = json!(blocks.iter().map(|b| crate::vcore::hex(b)).collect::<Vec<_>>());
+    let total_nominal: u64 = blocks.iter().map(|b| 8063 * PILOT + b.len() as u64 * 16 * ONE + 2 * SECOND).sum::<u64>() + SECOND;
+    let chain = match build_chain(&image, MAX_STEP, total_nominal * 2) {
+        Ok(c) => c,
+        Err(e) => {
+            ctx.violation("C11:prepass-error", &format!("tape {}: {}", name, e), json!({"kind":"prepass","tape":name,"blocks":blocks_json}));
+            return;
+        }
+    };
+    if !chain.ended {
+        ctx.violation(
+            "C11:tape-never-ends",
+            &format!("tape {}: deck still playing after {} T (twice the nominal tape length)", name, total_nominal * 2),
+            json!({"kind":"prepass","tape":name,"blocks":blocks_json}),
+        );
+        return;
+    }
+    // ---- structure oracle: RefTape decoder on the observed pulse list
+    let dec = match decode(&chain.pulses, true) {
+        Ok(d) => d,
+        Err(e) => {
+            ctx.violation(
+                "C11:waveform:non-standard-pulse-sequence",
+                &format!("tape {}: {}", name, e),
+                json!({"kind":"prepass","tape":name,"blocks":blocks_json}),
+            );
+            return;
+        }
+    };
+    if dec.blocks != blocks {
+        let got: Vec<String> = dec.blocks.iter().map(|b| crate::vcore::hex(b)).collect();
+        ctx.violation(
+            "C11:waveform:decoded-blocks-differ",
+            &format!("tape {}: decoded blocks {:?} differ from the TAP image blocks {}", name, got, blocks_json),
+            json!({"kind":"prepass","tape":name,"blocks":blocks_json}),
+        );
+        return;
+    }
+    for (b, n) in blocks.iter().zip(dec.pilot_counts.iter()) {
+        if !pilot_ok(b[0], *n) {
+            ctx.violation(
+                &format!("C11:waveform:pilot-count:flag{:02x}", if b[0] == 0 { 0 } else { 0xff }),
+                &format!("tape {}: block with flag {:02x} has {} pilot pulses", name, b[0], n),
+                json!({"kind":"prepass","tape":name,"blocks":blocks_json}),
+            );
+        }
+    }
+    // every block followed by a silence (the decoder closes blocks only at a silence or the open end)
+    ctx.outcome(fnv(&chain.pulses.iter().flat_map(|p| p.to_le_bytes()).collect::<Vec<u8>>()));
+    ctx.sample(json!({"tape":name,"blocks":blocks_json,"reload_events":chain.reloads.len(),"pulses":chain.pulses.len(),
+        "first_pulses":chain.pulses.iter().take(6).collect::<Vec<_>>()}));
+
+    // ---- map reloads to pulses: reload j (flipped, not the first edge) ends pulse p
+    let mut ends_pulse: Vec<Option<usize>> = Vec::with_capacity(chain.reloads.len());
+    let mut edges = 0usize;
+    for r in chain.reloads.iter() {
+        if r.flipped {
+            ends_pulse.push(if edges == 0 { None } else { Some(edges - 1) });
+            edges += 1;
+        } else {
+            ends_pulse.push(None);
+        }
+    }
+    // segment -1: from play() to reload 0
+    {
+        let mut t0 = new_tap(&image);
+        t0.play();
+        let exp = Expect { kind: None };
+        // first reload: an edge with no preceding pulse is fine -> treat expectations manually
+        let bit0 = t0.current_bit();
+        for s in 0..=MAX_STEP {
+            let mut n = t0.clone();
+            let _ = n.process_clocks(s);
+            ctx.add_transitions(1);
+            if tap_key(&n) != tap_key(&chain.reloads[0].entry) {
+                ctx.violation(
+                    "C11:partition-dependent-state",
+                    &format!("tape {}: state after the first call depends on its length {}", name, s),
+                    json!({"kind":"first","tape":name,"blocks":blocks_json,"step":s}),
+                );
+            }
+            let _ = (bit0, &exp);
+        }
+        ctx.add_states(1);
+    }
+    // ---- all segments, in waves (a segment entered by a non-flipping reload inherits the exit
+    //      `since` set of its predecessor)
+    let n = chain.reloads.len();
+    let init_since: Vec<Mutex<Option<Vec<u64>>>> = (0..n)
+        .map(|k| Mutex::new(if chain.reloads[k].flipped { Some(vec![0]) } else { None }))
+        .collect();
+    let done: Vec<Mutex<bool>> = (0..n).map(|_| Mutex::new(false)).collect();
+    let durs: Mutex<BTreeSet<(u8, u64)>> = Mutex::new(BTreeSet::new());
+    loop {
+        let ready: Vec<usize> = (0..n.saturating_sub(1))
+            .filter(|k| !*done[*k].lock().unwrap() && init_since[*k].lock().unwrap().is_some())
+            .collect();
+        if ready.is_empty() {
+            break;
+        }
+        // longest segments first so the 1 s pauses start early
+        let mut ready = ready;
+        ready.sort_by_key(|k| std::cmp::Reverse(chain.reloads[*k].delay));
+        par_for(ready.len(), 1, |i| {
+            let k = ready[i];
+            let init = init_since[k].lock().unwrap().clone().unwrap();
+            let kind = ends_pulse[k + 1].map(|p| dec.kinds[p]);
+            // the very first edge after a non-flipping start has no pulse index; a flip at k+1 with
+            // ends_pulse None can only be the first edge of the tape, which reload 0 already is
+            let out = explore_segment(
+                ctx,
+                name,
+                &chain.reloads[k].entry,
+                &init,
+                Some(&chain.reloads[k + 1].entry),
+                &Expect { kind: if chain.reloads[k + 1].flipped { kind } else { None } },
+                k,
+                &blocks_json,
+            );
+            ctx.add_states(out.states);
+            ctx.add_transitions(out.transitions);
+            ctx.add_traces(out.transitions);
+            if out.max_dur > 0 {
+                if let Some(kd) = kind {
+                    let mut g = durs.lock().unwrap();
+                    g.insert((kd as u8, out.min_dur));
+                    g.insert((kd as u8, out.max_dur));
+                }
+            }
+            if !chain.reloads[k + 1].flipped {
+                *init_since[k + 1].lock().unwrap() = Some(out.exit_since.iter().copied().collect());
+            }
+            *done[k].lock().unwrap() = true;
+        });
+    }
+    let unexplored = (0..n.saturating_sub(1)).filter(|k| !*done[*k].lock().unwrap()).count();
+    if unexplored > 0 {
+        eprintln!("MACHINERY: {} tape segments were never entered", unexplored);
+        std::process::exit(2);
+    }
+    for (k, d) in durs.into_inner().unwrap() {
+        ctx.outcome(fnv(&[k]) ^ d);
+    }
+}
+
+pub fn quick_tapes() -> Vec<(&'static str, Vec<Vec<u8>>)> {
+    vec![
+        ("data2", vec![std_block(0xFF, &[0xA5])]),
+        ("hdr1+data130", vec![vec![0x00], std_block(0xFF, &(0..128u32).map(|i| (i * 2 + 1) as u8).collect::<Vec<u8>>())]),
+    ]
+}
+
+pub fn thorough_tapes() -> Vec<(&'static str, Vec<Vec<u8>>)> {
+    let all: Vec<u8> = (0..256u32).map(|i| (i as u8).wrapping_mul(37).wrapping_add(11)).collect();
+    vec![
+        ("hdr19+data258", vec![std_block(0x00, &[3u8; 17]), std_block(0xFF, &all)]),
+        ("flag55-badsum", vec![vec![0x55, 0x01, 0x80, 0x00]]),
+        ("three-blocks", vec![std_block(0xFF, &[0x00]), std_block(0x00, &[0xFF, 0x00]), std_block(0x80, &[0x7F])]),
+    ]
+}
+
+pub fn run(tier: Tier, seed: u64, replay: Option<String>) -> i32 {
+    let ctx = Ctx::new("C11", tier, seed, "model_checking");
+    if let Some(path) = replay {
+        return replay_case(&ctx, &path);
+    }
+    let mut tapes = quick_tapes();
+    if tier.is_thorough() {
+        tapes.extend(thorough_tapes());
+    }
+    for (name, blocks) in tapes.iter() {
+        check_tape(&ctx, name, blocks);
+    }
+    ctx.note("tapes", json!(tapes.iter().map(|(n, b)| json!({"name":n,"block_lengths":b.iter().map(|x| x.len()).collect::<Vec<_>>()})).collect::<Vec<_>>()));
+    ctx.note("step_alphabet", json!("process_clocks(s) for every s in 0..=16 from every reachable (tape state, time since last edge)"));
+    crate::checks::c10::realtime_vs_fast(&ctx);
+    ctx.finish(
+        "component level: for each tape, every reachable state of the real Tap under all partitions of time into process_clocks steps 0..=16 (search decomposed at state-machine reload events; convergence of all paths at each reload is re-checked on every exit transition); oracle: RefTape decoder on the pulse list (pilot counts, sync, MSB-first bits, pause, decoded bytes == TAP blocks) and nominal <= pulse <= nominal+32 on every edge transition. distinct = distinct (pulse kind, extreme duration) and waveform outcomes",
+        true,
+        &["hook H3: Tap clone + verif_state (all fields)", "time is measured at call ends (when a reader could first observe the level)"],
+    )
+}
+
+fn replay_case(ctx: &Ctx, path: &str) -> i32 {
+    let v: serde_json::Value = serde_json::from_slice(&rig::read_file(path)).expect("replay json");
+    let case = &v["case"];
+    let blocks: Vec<Vec<u8>> = case["blocks"]
+        .as_array()
+        .map(|a| a.iter().map(|x| crate::vcore::unhex(x.as_str().unwrap_or(""))).collect())
+        .unwrap_or_default();
+    println!("replay: tape blocks {:?}", blocks.iter().map(|b| crate::vcore::hex(b)).collect::<Vec<_>>());
+    if case["kind"] == "realtime" {
+        return crate::checks::c10::replay_realtime(ctx, case);
+    }
+    check_tape(ctx, case["tape"].as_str().unwrap_or("replay"), &blocks);
+    let n = ctx.violation_classes();
+    println!("replay: {} violation class(es) reproduced", n);
+    (n > 0) as i32
 }
